@@ -193,18 +193,20 @@ def estimate_mixture_weight(
         weight = np.sum(
             masked_affiliation, axis=weight_constant_axis, keepdims=True
         )
-        if weight.shape[-2] != affiliation.shape[-2]:
-            # The class axis itself is tied: uniform weights, as the mean
-            # yields without saliency.
-            weight = np.full_like(weight, 1 / affiliation.shape[-2])
-        else:
-            weight = _unit_norm(
-                weight,
-                ord=1,
-                axis=-2,
-                eps=1e-10,
-                eps_style='where',
-            )
+
+    if weight.shape[-2] != affiliation.shape[-2]:
+        # The class axis itself is tied: uniform weights.
+        weight = np.full_like(weight, 1 / affiliation.shape[-2])
+    else:
+        # Observations without mass (zero saliency or no active source) must
+        # not reduce the total weight: normalize over the classes.
+        weight = _unit_norm(
+            weight,
+            ord=1,
+            axis=-2,
+            eps=1e-10,
+            eps_style='where',
+        )
 
     return weight
 
